@@ -152,6 +152,21 @@ theorem rinv_replay {input : List Char} {s s' : PState} {r : Char} {tl : List Ch
     rw [hc, hg] at this
     simpa [hc, hg] using this
 
+/-- `p.pos.Subtract(c)` right after `c` was consumed is the position before `c`: again the advance over a prefix of
+    the input (this is how every node's `Range.Start` is computed from its opening delimiter) -/
+theorem subtract_last_consumed {input : List Char} {s : PState} {c : Char} {tl : List Char} (h : RInv input s)
+    (hc : s.consumed = c :: tl) (hn : c ≠ '\n') :
+    s.pos.subtract c s.u16 = .ok (adv0 s.u16 tl.reverse) ∧ ∃ k, adv0 s.u16 tl.reverse = adv0 s.u16 (input.take k) := by
+  constructor
+  · rw [h.pos, hc, List.reverse_cons, adv0_snoc]
+    simp [Pos.advance, Pos.subtract, hn]
+  · refine ⟨tl.reverse.length, ?_⟩
+    have := h.split
+    rw [hc, List.reverse_cons] at this
+    rw [← this]
+    simp only [List.append_assoc]
+    rw [take_length_append]
+
 /-! ### compound reader operations and arbitrary operation sequences -/
 
 theorem read_lookahead {s s' : PState} {o : Option Char} (hg : s.lookahead = []) (e : read s = .ok (o, s')) :
